@@ -379,13 +379,13 @@ class CallMixin(ExprMixin):
         if isinstance(ty, List):
             arr, ln = T.list_arr(recv), T.list_len(recv)
             if name == "append":
-                x = T.coerce(args[0], ty.elem)
+                x = self.coerce_to(st, args[0], ty.elem, "append")
                 if x is None:
                     raise Unsupported("append %s to %s" % (args[0].ty, ty))
                 wb(T.list_mk(ty, z3.Store(arr, ln, x.t), ln + one))
                 return [(st, NONEV)]
             if name == "appendleft":
-                x = T.coerce(args[0], ty.elem)
+                x = self.coerce_to(st, args[0], ty.elem, "appendleft")
                 j = z3.Const("j!al", INT.sort())
                 narr = z3.Lambda([j], z3.If(j == zero, x.t, z3.Select(arr, j - one)))
                 wb(T.list_mk(ty, narr, ln + one))
@@ -494,7 +494,7 @@ class CallMixin(ExprMixin):
             self.hwrite(st, f.t, "Future", "nres", V(INT, nres + T.intval(1).t), check_frame=False)
             v = args[0]
             if name == "set_result":
-                if v.ty != NONE:
+                if v.ty != NONE or getattr(f.ty, "res", None) not in (None, NONE):
                     rty = getattr(f.ty, "res", None) or v.ty
                     cv = T.coerce(v, rty)
                     if cv is None:
@@ -690,6 +690,19 @@ class CallMixin(ExprMixin):
     def havoc_modifies(self, st, con_or_model, env, only=None):
         """only: optional set of (class, field) — restrict the havoc to those maps."""
         mods = con_or_model.modifies_ if hasattr(con_or_model, "modifies_") else con_or_model.modifies
+        fut_before = {f: self.hmap(st, "Future", f, self.any_field_ty("Future", f)) for f in self.class_fields("Future", st)} \
+            if any(l.startswith("Future.") for l in mods) else None
+        try:
+            self._havoc_modifies(st, mods, env, only)
+        finally:
+            if fut_before is not None:
+                # asyncio semantics: a future that is done never changes again
+                r = z3.FreshConst(z3.IntSort(), "r")
+                same = [z3.Select(self.hmap(st, "Future", f, self.any_field_ty("Future", f)), r) == z3.Select(m, r)
+                        for f, m in fut_before.items()]
+                st.assume(z3.ForAll([r], z3.Implies(z3.Select(fut_before["state"], r) != T.intval(0).t, z3.And(same))))
+
+    def _havoc_modifies(self, st, mods, env, only=None):
         for loc in mods:
             head, _, f = loc.rpartition(".")
             if head in C.CLASSES or head == "Future":
